@@ -314,3 +314,122 @@ def work_functions(fb, fn0, depth=3):
                     out.append(g)
                     work.append((g, d + 1))
     return out
+
+
+# ------------------------------------------------------------------------------------------------ must-bits of flag words
+
+def _bits_of(fb, fn, nid, env, state, depth=0):
+    """Bits that are definitely set in the value of integer expression nid (0 = nothing known), given the must-bits `state`
+    of locals and the assumption env (carrier -> value set) used to decide ?: conditions and helper calls."""
+    v = E.const_of(fn, nid)
+    if v is not None and v >= 0:
+        return v
+    n = scn(fn, nid)
+    if n is None:
+        return 0
+    k = n.get('k')
+    if k == 'var' and n.get('vk') in ('local', 'param'):
+        return state.get(n['d'], 0)
+    if k == 'binop':
+        a = _bits_of(fb, fn, n['lhs'], env, state, depth)
+        b = _bits_of(fb, fn, n['rhs'], env, state, depth)
+        if n['op'] == '|':
+            return a | b
+        if n['op'] == '&':
+            return a & b
+        return 0
+    if k == 'condop':
+        t = E.eval3(fn, n['cond'], env)
+        a = _bits_of(fb, fn, n['then'], env, state, depth)
+        b = _bits_of(fb, fn, n['else'], env, state, depth)
+        return a if t is True else b if t is False else (a & b)
+    if k == 'call' and 'u' in n and not E.is_extern_c(n) and depth < 2 and fb is not None:
+        # value computed by a library helper: must-bits common to all its returns under the same assumption
+        for g in fb.by_usr.get(n['u'], [])[:1]:
+            if not g.has_cfg:
+                continue
+            genv = {}
+            for i, a in enumerate(n.get('args', []) or []):
+                fs = E.value_of(fn, a, env) if a is not None else None
+                if fs is not None and i < len(g.params):
+                    genv[('var', g.params[i]['d'])] = fs
+            rets = {r['id']: r['sub'] for r in g.all_nodes() if r.get('k') == 'return' and 'sub' in r}
+            got = must_bits_at(fb, g, genv, rets, depth + 1)
+            if got:
+                out = ~0
+                for (_e, b) in got:
+                    out &= b
+                return max(out, 0)
+    return 0
+
+
+def must_bits_at(fb, fn, env, targets, depth=0, limit=5000):
+    """Walk fn from its entry under env (edges decided by env are pruned; booleans computed from the assumed values are
+    followed) while tracking, per path, the bits definitely set in every integer local (=, |=, &= with constants, ?:).
+    targets = {element id: expression id}; returns [(element id, must-bits of the expression on one arriving path)]."""
+    from collections import deque
+    out = []
+    seen = set()
+    dq = deque([(fn.entry, 0, dict(env), {})])
+    steps = 0
+    while dq:
+        b, i, env, state = dq.popleft()
+        steps += 1
+        if steps > limit:
+            return None
+        blk = fn.blocks[b]
+        stop = False
+        for e in blk['elems'][i:]:
+            n = fn.nodes[e]
+            if e in targets:
+                out.append((e, _bits_of(fb, fn, targets[e], env, state, depth)))
+            k = n.get('k')
+            if k == 'throw' or (k == 'call' and n.get('noret')):
+                stop = True
+                break
+            if k == 'decl':
+                for v in n['vars']:
+                    state = dict(state)
+                    state[v['d']] = _bits_of(fb, fn, v['init'], env, state, depth) if isinstance(v.get('init'), int) else 0
+            elif k == 'assign':
+                c = E.carrier_of(fn, n['lhs'])
+                if c and c[0] == 'var':
+                    state = dict(state)
+                    r = _bits_of(fb, fn, n['rhs'], env, state, depth)
+                    op = n.get('op')
+                    old = state.get(c[1], 0)
+                    state[c[1]] = r if op == '=' else (old | r) if op == '|=' else (old & r) if op == '&=' else 0
+            elif k == 'unop' and n.get('op') in ('++', '--'):
+                c = E.carrier_of(fn, n['sub'])
+                if c and c[0] == 'var':
+                    state = dict(state)
+                    state[c[1]] = 0
+            elif k in ('call', 'construct'):
+                for a in n.get('args', []) or []:
+                    an = fn.sn(a) if a is not None else None
+                    if an is not None and an.get('k') == 'unop' and an.get('op') == '&':
+                        c = E.carrier_of(fn, an['sub'])
+                        if c and c[0] == 'var' and c[1] in state:
+                            state = dict(state)
+                            state[c[1]] = 0
+            env, _term = E._transfer(fn, n, env, None, 9, {})
+        if stop or b == fn.exit:
+            continue
+        succs = blk['succs']
+        allowed = list(range(len(succs)))
+        if 'cond' in blk and len(succs) == 2 and blk.get('termcls') != 'SwitchStmt':
+            v = E.eval3(fn, E.effective_cond(fn, blk), env)
+            if v is True:
+                allowed = [0]
+            elif v is False:
+                allowed = [1]
+        for idx in allowed:
+            s = succs[idx]
+            if s is None:
+                continue
+            key = (s, frozenset(env.items()), frozenset(state.items()))
+            if key in seen:
+                continue
+            seen.add(key)
+            dq.append((s, 0, dict(env), dict(state)))
+    return out
